@@ -6,6 +6,7 @@ import MitmVerif.Gen.C38
 import MitmVerif.Lemmas.C38_Conv
 import MitmVerif.Lemmas.C38_Host
 import MitmVerif.Lemmas.C38_Old
+import MitmVerif.Lemmas.C38_State
 namespace MitmVerif.Props.C38
 open MitmVerif.C38 MitmVerif.Gen.C38
 
@@ -448,6 +449,257 @@ example :
     let d : Dict := [(.str (s "version"), .int 8), (.str (s "request"), req), (.str (s "response"), .null),
                      (.str (s "client_conn"), conn), (.str (s "server_conn"), conn)]
     ((conv_8_9 d).bind conv_9_10).isSome = true := by decide +kernel
+
+
+/-! #### the converters with process-global tables: 11→12 (`_websocket_handshakes`) and 4→5 (connection ids) -/
+
+/-- the table keys a format-11 record may write or consume: its own id if it is a handshake flow, the id it names if it
+    is an old websocket flow -/
+def keysTouched (d : Dict) : List Bytes :=
+  match (dget d (s "metadata")).bind asDict with
+  | none => []
+  | some md =>
+    (if dhas md (s "websocket") then (match dget d (s "id") with | some id => [enc id] | none => []) else []) ++
+    (match dget md (s "websocket_handshake") with | some hid => [enc hid] | none => [])
+
+private theorem dget12 (d : Dict) (m : Bytes) (h : (s "version" == m) = false) :
+    dget (setVersion d 12) m = dget d m := dget_dset_ne _ _ _ _ h
+
+private theorem dhas_of_dget {d : Dict} {n : Bytes} {v : Value} (h : dget d n = some v) : dhas d n = true := by
+  unfold dget at h
+  simp only [Option.map_eq_some_iff] at h
+  obtain ⟨kv, hkv, _⟩ := h
+  simp only [dhas, List.any_eq_true]
+  exact ⟨kv, List.mem_of_find?_eq_some hkv, by simpa using List.find?_some hkv⟩
+
+/-- **table_frame_11_12.** Converting a record changes the handshake table at most under the keys that record names. -/
+theorem table_frame_11_12 (g g' : Tbl Dict) (d d' : Dict) (m : Bytes) (h : conv_11_12_st g d = some (g', d'))
+    (hm : ∀ k ∈ keysTouched d, (k == m) = false) : tget g' m = tget g m := by
+  unfold conv_11_12_st at h
+  simp only [Option.bind_eq_bind, Option.bind_eq_some_iff] at h
+  obtain ⟨md, hmd, g1, hg1, h⟩ := h
+  rw [dget12 d _ (by decide +kernel)] at hmd
+  have hmd' : (dget d (s "metadata")).bind asDict = some md := by
+    simpa only [Option.bind_eq_bind, Option.bind_eq_some_iff] using hmd
+  simp only [keysTouched, hmd'] at hm
+  have e1 : tget g1 m = tget g m := by
+    apply conv1112Store_frame g g1 _ md hg1 m
+    intro id hw hid
+    rw [dget12 d _ (by decide +kernel)] at hid
+    apply hm
+    simp [hw, hid]
+  split at h
+  · simp only [Option.bind_eq_some_iff] at h
+    obtain ⟨hid, hhid, h⟩ := h
+    split at h
+    · cases h
+    · simp only [Option.bind_eq_some_iff, Option.pure_def, Option.some.injEq, Prod.mk.injEq] at h
+      obtain ⟨⟨data, g2⟩, hsel, dmd, _, rec_, _, rfl, _⟩ := h
+      have hk : (enc hid == m) = false := by apply hm; simp [hhid]
+      split at hsel
+      · simp only [Option.some.injEq, Prod.mk.injEq] at hsel
+        obtain ⟨_, rfl⟩ := hsel
+        rw [tget_tdel_ne _ _ _ hk]; exact e1
+      · simp only [Option.map_eq_some_iff, Prod.mk.injEq] at hsel
+        obtain ⟨_, _, _, rfl⟩ := hsel
+        exact e1
+  · simp only [Option.pure_def, Option.some.injEq, Prod.mk.injEq] at h
+    obtain ⟨rfl, _⟩ := h
+    exact e1
+
+/-- the table after a run of records all of which convert -/
+def runTbl (g : Tbl Dict) : List Dict → Option (Tbl Dict)
+  | [] => some g
+  | d :: ds => (conv_11_12_st g d).bind (fun r => runTbl r.1 ds)
+
+/-- **stored_until_consumed.** Whatever is on record under a key stays there, unchanged, through any run of records that
+    do not name that key — however many, of whatever kind. -/
+theorem stored_until_consumed (ds : List Dict) (g g' : Tbl Dict) (m : Bytes) (h : runTbl g ds = some g')
+    (hm : ∀ d ∈ ds, ∀ k ∈ keysTouched d, (k == m) = false) : tget g' m = tget g m := by
+  induction ds generalizing g with
+  | nil => simp only [runTbl, Option.some.injEq] at h; subst h; rfl
+  | cons d ds ih =>
+    simp only [runTbl, Option.bind_eq_some_iff] at h
+    obtain ⟨⟨g1, d1⟩, h1, h2⟩ := h
+    rw [ih g1 h2 (fun d' hd' => hm d' (List.mem_cons_of_mem _ hd')),
+      table_frame_11_12 g g1 d d1 m h1 (hm d (List.mem_cons_self ..))]
+
+/-- **plain_is_stateless.** A record without websocket metadata neither reads nor writes the table, and the stateful
+    converter is the stateless `conv_11_12` on it. -/
+theorem plain_is_stateless (g : Tbl Dict) (d md : Dict) (hmd : (dget d (s "metadata")).bind asDict = some md)
+    (h1 : dhas md (s "websocket") = false) (h2 : dhas md (s "websocket_handshake") = false) :
+    conv_11_12_st g d = some (g, dset (setVersion d 12) (s "websocket") .null) ∧
+    conv_11_12 d = some (dset (setVersion d 12) (s "websocket") .null) := by
+  have hmd12 : (dget (setVersion d 12) (s "metadata")).bind asDict = some md := by
+    rw [dget12 d _ (by decide +kernel)]; exact hmd
+  constructor
+  · unfold conv_11_12_st
+    simp [hmd12, conv1112Store, h1, h2]
+  · unfold conv_11_12
+    simp [hmd12, h1, h2]
+
+/-- **handshake_stored.** A handshake flow is put on record under its id as it is after the version stamp, and is
+    itself converted like a plain record. -/
+theorem handshake_stored (g : Tbl Dict) (d md : Dict) (id : Value)
+    (hmd : (dget d (s "metadata")).bind asDict = some md)
+    (h1 : dhas md (s "websocket") = true) (h2 : dhas md (s "websocket_handshake") = false)
+    (hid : dget d (s "id") = some id) (hh : hashable id = true) :
+    conv_11_12_st g d = some (tset g (enc id) (setVersion d 12), dset (setVersion d 12) (s "websocket") .null) := by
+  have hmd12 : (dget (setVersion d 12) (s "metadata")).bind asDict = some md := by
+    rw [dget12 d _ (by decide +kernel)]; exact hmd
+  have hid12 : dget (setVersion d 12) (s "id") = some id := by rw [dget12 d _ (by decide +kernel)]; exact hid
+  unfold conv_11_12_st
+  simp [hmd12, conv1112Store, h1, h2, hid12, hh]
+
+/-- **ws_takes_stored_handshake.** An old websocket flow naming a handshake that is on record comes out as THAT flow
+    (id, request, response, connections … are the handshake's), gains the `duplicated` note and a `websocket` record
+    with the old flow's messages; the handshake is consumed. -/
+theorem ws_takes_stored_handshake (g g' : Tbl Dict) (d d' md hflow : Dict) (hid : Value)
+    (hmd : (dget d (s "metadata")).bind asDict = some md) (h1 : dhas md (s "websocket") = false)
+    (hh : dget md (s "websocket_handshake") = some hid) (hstored : tget g (enc hid) = some hflow)
+    (h : conv_11_12_st g d = some (g', d')) :
+    tget g' (enc hid) = none ∧
+    (∀ m, (s "metadata" == m) = false → (s "websocket" == m) = false → dget d' m = dget hflow m) ∧
+    ∃ rec_, dget d' (s "websocket") = some (.dict rec_) ∧ dget rec_ (s "messages") = dget d (s "messages") ∧
+      dget rec_ (s "close_code") = dget d (s "close_code") := by
+  have hmd12 : (dget (setVersion d 12) (s "metadata")).bind asDict = some md := by
+    rw [dget12 d _ (by decide +kernel)]; exact hmd
+  have h2 : dhas md (s "websocket_handshake") = true := dhas_of_dget hh
+  unfold conv_11_12_st at h
+  simp only [hmd12, conv1112Store, h1, h2, hh, Option.bind_eq_bind, Option.bind_some, Bool.false_eq_true, if_false,
+    if_true, hstored] at h
+  split at h
+  · cases h
+  · simp only [Option.bind_eq_some_iff, Option.pure_def, Option.some.injEq, Prod.mk.injEq] at h
+    obtain ⟨dmd, _, rec_, hrec, rfl, rfl⟩ := h
+    refine ⟨tget_tdel_same _ _, fun m a b => ?_, ?_⟩
+    · rw [dget_dset_ne _ _ _ _ b, dget_dset_ne _ _ _ _ a]
+    · unfold wsRecord at hrec
+      simp only [Option.bind_eq_bind, Option.bind_eq_some_iff, Option.pure_def, Option.some.injEq] at hrec
+      obtain ⟨msgs, hmsgs, cs, _, cc, hcc, cr, _, te, _, rfl⟩ := hrec
+      rw [dget12 d _ (by decide +kernel)] at hmsgs hcc
+      refine ⟨_, dget_dset_same _ _ _, ?_, ?_⟩
+      · rw [hmsgs]; exact dget_cons_same _ _ _
+      · rw [hcc]
+        repeat (first | rw [dget_cons_ne _ _ _ _ (by decide +kernel)] | rw [dget_cons_same])
+
+/-- **ws_without_handshake_dummy.** With no handshake on record the old websocket flow becomes the made-up flow: its own
+    id and connections, the placeholder request for host `unknown`; the table is as it was. -/
+theorem ws_without_handshake_dummy (g g' : Tbl Dict) (d d' md : Dict) (hid : Value)
+    (hmd : (dget d (s "metadata")).bind asDict = some md) (h1 : dhas md (s "websocket") = false)
+    (hh : dget md (s "websocket_handshake") = some hid) (hstored : tget g (enc hid) = none)
+    (h : conv_11_12_st g d = some (g', d')) :
+    g' = g ∧ dget d' (s "request") = some dummyRequest ∧ dget d' (s "id") = dget d (s "id") ∧
+    dget d' (s "client_conn") = dget d (s "client_conn") ∧ dget d' (s "server_conn") = dget d (s "server_conn") ∧
+    dget d' (s "version") = some (.int 12) := by
+  have hmd12 : (dget (setVersion d 12) (s "metadata")).bind asDict = some md := by
+    rw [dget12 d _ (by decide +kernel)]; exact hmd
+  have h2 : dhas md (s "websocket_handshake") = true := dhas_of_dget hh
+  unfold conv_11_12_st at h
+  simp only [hmd12, conv1112Store, h1, h2, hh, Option.bind_eq_bind, Option.bind_some, Bool.false_eq_true, if_false,
+    if_true, hstored] at h
+  split at h
+  · cases h
+  · simp only [Option.bind_eq_some_iff, Option.pure_def, Option.some.injEq, Prod.mk.injEq, Option.map_eq_some_iff] at h
+    obtain ⟨⟨data, g2⟩, ⟨df, hdf, hpair⟩, dmd, _, rec_, _, rfl, rfl⟩ := h
+    simp only [Prod.mk.injEq] at hpair
+    obtain ⟨rfl, rfl⟩ := hpair
+    unfold dummyFlow at hdf
+    simp only [Option.bind_eq_bind, Option.bind_eq_some_iff, Option.pure_def, Option.some.injEq] at hdf
+    obtain ⟨cc, hcc, er, _, id, hid', ic, _, ir, _, mk, _, sc, hsc, rfl⟩ := hdf
+    rw [dget12 d _ (by decide +kernel)] at hcc hid' hsc
+    refine ⟨rfl, ?_, ?_, ?_, ?_, ?_⟩ <;>
+      rw [dget_dset_ne _ _ _ _ (by decide +kernel), dget_dset_ne _ _ _ _ (by decide +kernel)] <;> dsimp only
+    · repeat (first | rw [dget_cons_ne _ _ _ _ (by decide +kernel)] | rw [dget_cons_same])
+    · rw [hid']; repeat (first | rw [dget_cons_ne _ _ _ _ (by decide +kernel)] | rw [dget_cons_same])
+    · rw [hcc]; repeat (first | rw [dget_cons_ne _ _ _ _ (by decide +kernel)] | rw [dget_cons_same])
+    · rw [hsc]; repeat (first | rw [dget_cons_ne _ _ _ _ (by decide +kernel)] | rw [dget_cons_same])
+    · repeat (first | rw [dget_cons_ne _ _ _ _ (by decide +kernel)] | rw [dget_cons_same])
+
+
+/-- **ids_stable_4_5.** Whatever id a connection key has on record, it keeps through the conversion of any further
+    record (setdefault never overwrites), and the id supply only moves forward. -/
+theorem ids_stable_4_5 (fresh : Nat → Value) (g g' : Ids) (d d' : Dict) (h : conv_4_5_st fresh g d = some (g', d')) :
+    (∀ k v, tget g.client k = some v → tget g'.client k = some v) ∧
+    (∀ k v, tget g.server k = some v → tget g'.server k = some v) ∧ g.drawn < g'.drawn := by
+  unfold conv_4_5_st at h
+  simp only [Option.bind_eq_bind, Option.bind_eq_some_iff] at h
+  obtain ⟨cc, _, sc, _, ck, _, sk, _, via, _, h⟩ := h
+  split at h
+  · simp only [Option.bind_eq_some_iff, Option.pure_def, Option.some.injEq, Prod.mk.injEq] at h
+    obtain ⟨vd, _, vk, _, rfl, _⟩ := h
+    exact ⟨fun k v hk => setdefault_mono _ _ _ _ _ hk,
+      fun k v hk => setdefault_mono _ _ _ _ _ (setdefault_mono _ _ _ _ _ hk), by simp⟩
+  · simp only [Option.pure_def, Option.some.injEq, Prod.mk.injEq] at h
+    obtain ⟨rfl, _⟩ := h
+    exact ⟨fun k v hk => setdefault_mono _ _ _ _ _ hk, fun k v hk => setdefault_mono _ _ _ _ _ hk, by simp⟩
+
+/-- a run of format-4 records through 4→5 -/
+def runIds (fresh : Nat → Value) (g : Ids) : List Dict → Option (Ids × List Dict)
+  | [] => some (g, [])
+  | d :: ds => (conv_4_5_st fresh g d).bind (fun r => (runIds fresh r.1 ds).map (fun q => (q.1, r.2 :: q.2)))
+
+/-- **ids_stable_over_run.** … through any number of records. -/
+theorem ids_stable_over_run (fresh : Nat → Value) (ds : List Dict) (g g' : Ids) (out : List Dict)
+    (h : runIds fresh g ds = some (g', out)) :
+    (∀ k v, tget g.client k = some v → tget g'.client k = some v) ∧
+    (∀ k v, tget g.server k = some v → tget g'.server k = some v) ∧ g.drawn ≤ g'.drawn := by
+  induction ds generalizing g out with
+  | nil => simp only [runIds, Option.some.injEq, Prod.mk.injEq] at h; obtain ⟨rfl, _⟩ := h; exact ⟨fun _ _ h => h, fun _ _ h => h, Nat.le_refl _⟩
+  | cons d ds ih =>
+    simp only [runIds, Option.bind_eq_some_iff, Option.map_eq_some_iff, Prod.mk.injEq] at h
+    obtain ⟨⟨g1, d1⟩, h1, ⟨g2, o2⟩, h2, rfl, _⟩ := h
+    obtain ⟨a1, a2, a3⟩ := ids_stable_4_5 fresh g g1 d d1 h1
+    obtain ⟨b1, b2, b3⟩ := ih g1 o2 h2
+    exact ⟨fun k v hk => b1 k v (a1 k v hk), fun k v hk => b2 k v (a2 k v hk), by omega⟩
+
+/-- **client_id_is_recorded_id.** The id written into the client connection is the one on record for its key after the
+    step — the recorded one if the key was known, else the id just drawn. -/
+theorem client_id_is_recorded_id (fresh : Nat → Value) (g g' : Ids) (d d' : Dict)
+    (h : conv_4_5_st fresh g d = some (g', d')) :
+    ∃ cc ck cc', dget d (s "client_conn") = some (.dict cc) ∧ connKey cc (s "address") = some ck ∧
+      dget d' (s "client_conn") = some (.dict cc') ∧ dget cc' (s "id") = tget g'.client ck ∧
+      (∀ old, tget g.client ck = some old → dget cc' (s "id") = some old) ∧
+      (tget g.client ck = none → dget cc' (s "id") = some (fresh g.drawn)) := by
+  unfold conv_4_5_st at h
+  simp only [Option.bind_eq_bind, Option.bind_eq_some_iff] at h
+  obtain ⟨cc, ⟨vc, hvc, hcc⟩, sc, _, ck, hck, sk, _, via, _, h⟩ := h
+  cases vc <;> simp only [asDict, Option.some.injEq, reduceCtorEq] at hcc
+  subst hcc
+  rename_i kvs
+  rw [show dget (setVersion d 5) (s "client_conn") = dget d (s "client_conn") from
+    dget_dset_ne _ _ _ _ (by decide +kernel)] at hvc
+  have hrec := setdefault_result_recorded g.client ck (fresh g.drawn)
+  have hsp := setdefault_spec g.client ck (fresh g.drawn)
+  split at h
+  · simp only [Option.bind_eq_some_iff, Option.pure_def, Option.some.injEq, Prod.mk.injEq] at h
+    obtain ⟨vd, _, vk, _, rfl, rfl⟩ := h
+    refine ⟨kvs, ck, dset kvs (s "id") (setdefault g.client ck (fresh g.drawn)).2, hvc, hck, ?_, ?_, ?_, ?_⟩
+    · rw [dget_dset_ne _ _ _ _ (by decide +kernel)]; exact dget_dset_same _ _ _
+    · rw [dget_dset_same]; exact hrec.symm
+    · intro old ho; rw [dget_dset_same, (hsp.1 old ho)]
+    · intro hn; rw [dget_dset_same, (hsp.2 hn).1]
+  · simp only [Option.pure_def, Option.some.injEq, Prod.mk.injEq] at h
+    obtain ⟨rfl, rfl⟩ := h
+    refine ⟨kvs, ck, dset kvs (s "id") (setdefault g.client ck (fresh g.drawn)).2, hvc, hck, ?_, ?_, ?_, ?_⟩
+    · rw [dget_dset_ne _ _ _ _ (by decide +kernel)]; exact dget_dset_same _ _ _
+    · rw [dget_dset_same]; exact hrec.symm
+    · intro old ho; rw [dget_dset_same, (hsp.1 old ho)]
+    · intro hn; rw [dget_dset_same, (hsp.2 hn).1]
+
+-- non-vacuity: handshake, then its websocket flow: the second comes out under the handshake's id; a third finds nothing
+example :
+    let conn : Value := .dict [(.str (s "timestamp_end"), .int 9)]
+    let hs : Dict := [(.str (s "version"), .int 11), (.str (s "id"), .str (s "H")), (.str (s "metadata"), .dict [(.str (s "websocket"), .bool true)]),
+                      (.str (s "server_conn"), conn)]
+    let ws : Dict := [(.str (s "version"), .int 11), (.str (s "id"), .str (s "W")),
+                      (.str (s "metadata"), .dict [(.str (s "websocket_handshake"), .str (s "H"))]),
+                      (.str (s "messages"), .list []), (.str (s "close_sender"), .str (s "client")), (.str (s "close_code"), .int 1000),
+                      (.str (s "close_reason"), .str []), (.str (s "client_conn"), conn), (.str (s "server_conn"), conn),
+                      (.str (s "error"), .null), (.str (s "intercepted"), .bool false), (.str (s "is_replay"), .null), (.str (s "marked"), .bool false)]
+    ((run1112 [] [hs, ws, ws]).2.map (fun o => (o.bind (fun d => dget d (s "id"))).map enc))
+      = [some (enc (.str (s "H"))), some (enc (.str (s "H"))), some (enc (.str (s "W")))] ∧
+    (run1112 [] [hs, ws, ws]).1.length = 0 := by decide +kernel
 
 /-! #### the whole modelled chain 12 → 21 -/
 
